@@ -666,19 +666,56 @@ def gen_bound_then_other(rng, h):
             return ("o", 3, [b0, t])
         return ("o", 4, [t, b0])
     kinds = ["id", "F", "arg", "res", "prod"]
-    n = rng.randint(2, 3)
+    n = rng.randint(2, 4)
     ks = [rng.choice(kinds) for _ in range(n)]
+    if n >= 3 and rng.random() < 0.5:
+        # both a lower and an upper bound first (covariant then contravariant use)
+        ks[0], ks[1] = rng.choice(["id", "res"]), "arg"
     res = rng.choice([x, ("o", rng.choice(un), [x])])
     body = res
     for k in reversed(ks):
         body = ("o", 3, [ctx(k, x), body])
     cs = [gen_constraint(rng, h, 1)] if rng.random() < 0.3 else []
+    b1 = rng.choice(base)
+    if rng.random() < 0.3:
+        # lower bound, upper bound, then a fresh variable in contravariant
+        # position (the bounded variable is bound TO it and must hand both bounds
+        # on), then a probe that respects or exceeds a bound
+        ks = [rng.choice(["id", "res"]), "arg", "arg", rng.choice(["id", "id", "arg", "res"])]
+        res = x
+        body = res
+        for k in reversed(ks):
+            body = ("o", 3, [ctx(k, x), body])
+        deep = [o for o in range(5, 5 + h.nbase) if o in h.parents]
+        if deep and rng.random() < 0.8:
+            b1 = rng.choice(deep)
+        ch = chain_of(h, b1)
+        lo = ("o", b1, [])
+        up = ("o", ch[1] if len(ch) > 1 and rng.random() < 0.7 else rng.choice(ch), [])
+        above_up = chain_of(h, up[1])[1:]
+        if rng.random() < 0.6:
+            anyb = ("o", rng.choice(above_up + [0]), [])       # strictly above the upper bound: must be rejected
+        else:
+            anyb = ("o", rng.choice(ch + [c for c, p in h.parents.items() if p in ch] + base), [])
+        fills = [lo, up, ("w",), anyb]
+        if rng.random() < 0.3:
+            fills[0], fills[1] = fills[1], fills[0]
+            ks[0], ks[1] = ks[1], ks[0]
+        prog = [("inst", (1, body, []))]
+        cur, nvals = 0, 1
+        for k, fill in zip(ks, fills):
+            prog.append(("inst", (0, ctx(k, fill) if k != "id" else fill, [])))
+            prog.append(("apply", cur, nvals, True))
+            cur = nvals + 1
+            nvals += 2
+        return prog
     prog = [("inst", (1, body, cs))]
     cur, nvals = 0, 1
-    b1 = rng.choice(base)
     for i, k in enumerate(ks):
         r = rng.random()
-        if i == 0 or r < 0.4:
+        if i >= 1 and rng.random() < 0.15:
+            fill = ("w",)       # a fresh variable meets the (possibly bounded) variable: bind(var, var) hands the bounds on
+        elif i == 0 or r < 0.4:
             fill = ("o", rng.choice(chain_of(h, b1) + [c for c, p in h.parents.items() if p == b1] + [b1]), [])
         elif r < 0.75:
             fill = ("o", rng.choice(un), [("o", b1, [])])
